@@ -45,16 +45,29 @@ Print Assumptions C17_http_cap.
 (** HTTPServer runtime: after ANY history of accepts, closes, hot reloads of maxConnections,
     SetMaxCount goroutines (any order) and listener replacements ([RRestart]: a reload that needs
     a restart, or the recovery of a failed server - the listener is rebuilt from the spec in
-    force), the listener's realCapacity is the LAST configured maxConnections (clamped to
-    maxCapacity) - a function of the latest spec only, not of the path of restarts - and in
-    every settled state the permits in use are within it *)
+    force once Shutdown has drained the old one), the listener's realCapacity is the LAST
+    configured maxConnections (clamped to maxCapacity) - a function of the latest spec only, not
+    of the path of restarts; no connection is left on a replaced listener, and in every settled
+    state the connections being served (listener in force + replaced ones) are within the cap *)
 Theorem C17_cap_follows_latest_spec : forall sz n ls,
   0 < sz -> 0 <= n -> Forall rlabel_ok ls ->
   let r := rrun sz (rinit sz n) ls in
   real (r_l r) = Z.min (last_spec n ls) sz /\
-  (settled (r_l r) = true -> used (r_l r) <= Z.min (last_spec n ls) sz).
+  (settled (r_l r) = true -> r_serving r <= Z.min (last_spec n ls) sz) /\
+  r_old r = 0.
 Proof. exact cap_is_last_configured. Qed.
 Print Assumptions C17_cap_follows_latest_spec.
+
+(** documented: replacing the listener without waiting for it to drain (Shutdown cut short while
+    a request is in flight) serves 2 connections with a cap of 1; the drained replacement does not *)
+Theorem C17_undrained_restart_exceeds_cap :
+  let pre := [RStep LAcquire; RStep (LGot 0%N)] in
+  let post := [RStep LAcquire; RStep (LGot 1%N)] in
+  r_serving (rrun 20000000 (rinit 20000000 1) (pre ++ [RRestartUndrained] ++ post)) = 2 /\
+  r_serving (rrun 20000000 (rinit 20000000 1) (pre ++ [RRestart] ++ post)) = 1 /\
+  r_serving (rrun 20000000 (rinit 20000000 1) (pre ++ [RStep (LClose 0%N); RRestart] ++ post)) = 1.
+Proof. exact undrained_restart_exceeds_cap. Qed.
+Print Assumptions C17_undrained_restart_exceeds_cap.
 
 (** capacity released by a closed connection is usable again: in a settled state nobody
     waits while a permit is free; a Close hands the permit to the longest waiting acceptor
